@@ -124,6 +124,10 @@ class Col:
             return self.scalar(v) if not isinstance(v, Term) or not self.has_time(v) else c(v, j)
         if op == "arange":
             return j
+        if op in ("zeros", "zeros_like", "new_zeros"):
+            return sp.Integer(0)
+        if op in ("ones", "ones_like", "new_ones"):
+            return sp.Integer(1)
         if op == "index":
             idx = a[1]
             last = idx[-1] if isinstance(idx, tuple) else idx
